@@ -809,6 +809,10 @@ def gen_dataset(rng, named=True, size=(3, 12)):
             else:
                 ts = gen_graph(rng, n)
             ds["named"].append([name, ts])
+        if rng.random() < 0.3:
+            # a registered named graph WITHOUT triples (Dataset.graph(name)): GRAPH ?g must still visit it
+            j = rng.randrange(len(ds["named"]))
+            ds["named"][j] = [ds["named"][j][0], []]
         ds["union"] = rng.random() < 0.2
     return ds
 
@@ -1155,6 +1159,45 @@ def _probe_group(g):
     return ["group", _merge_tri(elts)]
 
 
+def _graph_probe(g):
+    """GRAPH ?g { body } where the body has a solution on a graph WITHOUT triples (only OPTIONAL parts, BIND, VALUES,
+    a UNION with an empty branch, OPTIONAL + !bound, NOT EXISTS), optionally joined with something outside"""
+    r = g.rng
+    vs = list(range(g.pool))
+    r.shuffle(vs)
+    gv, a, b, c = vs
+    ts = g.alltriples or [[["i", 0], ["i", 10], ["i", 1]]]
+    w = r.choice(ts)
+    tri = ["tri", [[["v", a], w[1] if r.random() < 0.7 else ["v", c], ["v", b]]]]
+    k = r.random()
+    if k < 0.25:
+        body = [["opt", ["group", [tri]]]]
+    elif k < 0.4:
+        body = [["opt", ["group", [tri]]], ["filter", ["not", ["bound", a]]]]
+    elif k < 0.55:
+        body = [["bind", ["const", r.choice(g.consts)], a]]
+    elif k < 0.7:
+        body = [["union", [["group", [tri]], ["group", [["tri", []]]]]]]
+    elif k < 0.8:
+        body = [["values", [a], [[r.choice(g.consts)], [None]]]]
+    elif k < 0.9:
+        body = [["filter", ["nexists", ["group", [tri]]]]]
+    else:
+        body = [["opt", ["group", [tri]]], ["bind", ["bound", a], c]]
+    body = _fix_binds(body)   # a BIND target must not be in scope before it (the predicate position may use ?c)
+    gp = ["v", gv] if r.random() < 0.85 else r.choice([n for n, _ in g.ds["named"]])
+    elts = [["graph", gp, ["group", body]]]
+    x = r.random()
+    if x < 0.3:
+        elts.insert(0, g.triples({a, b}))
+    elif x < 0.45:
+        elts.append(["filter", ["bound", gv]])
+    elif x < 0.55:
+        names = [n for n, _ in g.ds["named"]]
+        elts.insert(0, ["values", [gv], [[r.choice(names)], [r.choice(names + g.nodes)]]])
+    return ["group", _merge_tri(elts)]
+
+
 def _fix_binds(elts):
     """BIND's variable must not be in scope in the part of the group before it (§18.2.1 / grammar note 12);
     after a shuffle nothing about BIND changes (only filters move), so just re-check and drop offenders."""
@@ -1169,7 +1212,9 @@ def _fix_binds(elts):
 def gen_query(rng, ds, depth=3, forms=("select", "select", "select", "ask", "construct"), features=None,
               probe_share=0.0):
     g = Gen(rng, ds, depth, features=features)
-    if probe_share and rng.random() < probe_share:
+    if probe_share and g.has_named and rng.random() < probe_share / 4:
+        where = _graph_probe(g)   # GRAPH ?g over bodies that match a graph without triples
+    elif probe_share and rng.random() < probe_share:
         where = _probe_group(g)   # a variable bound inside a nested group AND by its sibling, with FILTER/MINUS/OPTIONAL on it
     else:
         where = g.group(depth, first_tri=0.9)
